@@ -769,4 +769,151 @@ def exitStatus (c : ExitCfg) : Tool → Verdict → Option Nat
   | _, .errors => some c.fail
   | _, .usage k => c.usage[k]?
 
+/-! ## exit-status discipline: ERRORreport / ERRORreport_with_symbol / EXPRESS_fail / EXPRESS_succeed / main
+
+The reporting functions are modelled as the *sequences of actions* found in their branches (regenerated), interpreted over
+a state that says what has reached stderr, what waits in the message buffer (-B) and whether `ERRORoccurred` is set.
+The interpreter is written once, over any state type with the operations `Ops`, so that the proofs can run it on a
+finite abstraction of the state. -/
+
+inductive RAct where
+  | print          -- fprintf / vfprintf / fputc to error_file or stderr
+  | buf            -- ERROR_printf / ERROR_vprintf: text into the message buffer
+  | commit         -- ERROR_nexterror: the text becomes a stored message
+  | setOccurred    -- ERRORoccurred = true
+  | flush          -- ERROR_flush_message_buffer / ERRORflush_messages
+  deriving Repr, DecidableEq
+
+structure RState where
+  printed : Nat       -- pieces of diagnostics on stderr
+  pending : Nat       -- messages stored in the buffer, not printed yet
+  staged : Bool       -- text in the buffer that has not been committed
+  occurred : Bool     -- ERRORoccurred
+  errIssued : Bool    -- a diagnostic of severity ≥ ERROR was issued
+  trailer : Nat       -- "Errors in input" / "No errors in input" lines
+  deriving Repr, DecidableEq
+
+def RState.init : RState := ⟨0, 0, false, false, false, 0⟩
+
+def RAct.step : RAct → RState → RState
+  | .print, s => { s with printed := s.printed + 1 }
+  | .buf, s => { s with staged := true }
+  | .commit, s => if s.staged then { s with pending := s.pending + 1, staged := false } else s
+  | .setOccurred, s => { s with occurred := true }
+  | .flush, s => { s with printed := s.printed + s.pending, pending := 0 }
+
+/-- the operations the interpreter needs -/
+structure Ops (σ : Type) where
+  step : RAct → σ → σ
+  occurred : σ → Bool
+  markErr : σ → σ
+  markTrailer : σ → σ
+
+def RState.ops : Ops RState where
+  step := RAct.step
+  occurred := fun s => s.occurred
+  markErr := fun s => { s with errIssued := true }
+  markTrailer := fun s => { s with trailer := s.trailer + 1 }
+
+inductive Stop where
+  | exited (status : Nat)
+  | aborted
+  deriving Repr, DecidableEq
+
+/-- one reporting function (or one of its two modes): the branch for severity ≥ ERROR, the other branch, what is done
+before the abort()/exit( EXPRESS_fail ) decision, and whether that decision is also taken when the buffer is full -/
+structure ReportFn where
+  errActs : List RAct
+  warnActs : List RAct
+  exitActs : List RAct
+  alsoWhenFull : Bool
+  deriving Repr
+
+structure ExitDiscCfg where
+  sevs : List Nat            -- severity of every entry of LibErrors, in the order of `enum ErrorCode`
+  subordinate : Nat          -- SUBORDINATE_FAILED: never printed
+  sevError : Nat
+  sevExit : Nat
+  sevDump : Nat
+  plain : ReportFn           -- ERRORreport
+  symBuffered : ReportFn     -- ERRORvreport_with_symbol with -B
+  symPlain : ReportFn        -- ERRORvreport_with_symbol without
+  failActs : List RAct       -- EXPRESS_fail before its hook/trailer
+  failHooks : Nat            -- source files that install an EXPRESSfail hook
+  failStatus : Nat
+  succActs : List RAct       -- EXPRESS_succeed before its hook/trailer
+  succStatus : Nat
+  checks : List Bool         -- `if( ERRORoccurred )` after parse, resolve, back end
+  deriving Repr
+
+/-- one call of a reporting function -/
+structure Ev where
+  code : Nat
+  sym : Bool       -- through ERRORreport_with_symbol / _with_line
+  full : Bool      -- the message buffer is full after this message (count or space)
+  deriving Repr
+
+structure Lvl where
+  err : Bool
+  exit : Bool
+  dump : Bool
+  deriving Repr, DecidableEq
+
+/-- `none`: nothing happens (SUBORDINATE_FAILED, or switched off by -w or -i) -/
+def evLevel (c : ExitDiscCfg) (enabled : Nat → Bool) (e : Ev) : Option Lvl :=
+  if e.code == c.subordinate || !enabled e.code then none
+  else
+    let sev := c.sevs.getD e.code 0
+    some ⟨decide (c.sevError ≤ sev), decide (c.sevExit ≤ sev), decide (c.sevDump ≤ sev)⟩
+
+section
+variable {σ : Type} (o : Ops σ)
+
+def runActs : List RAct → σ → σ
+  | [], s => s
+  | a :: l, s => runActs l (o.step a s)
+
+/-- EXPRESS_fail( ): flush, trailer, status -/
+def doFail (c : ExitDiscCfg) (s : σ) : σ × Option Stop :=
+  (o.markTrailer (runActs o c.failActs s), some (.exited c.failStatus))
+
+def doSucceed (c : ExitDiscCfg) (s : σ) : σ × Option Stop :=
+  (o.markTrailer (runActs o c.succActs s), some (.exited c.succStatus))
+
+def pickFn (c : ExitDiscCfg) (buffered sym : Bool) : ReportFn :=
+  if sym then (if buffered then c.symBuffered else c.symPlain) else c.plain
+
+def reportL (c : ExitDiscCfg) (buffered : Bool) (l : Lvl) (sym full : Bool) (s : σ) : σ × Option Stop :=
+  let f := pickFn c buffered sym
+  let s1 := if l.err then o.markErr (runActs o f.errActs s) else runActs o f.warnActs s
+  if l.exit || (f.alsoWhenFull && full) then
+    let s2 := runActs o f.exitActs s1
+    if l.dump then (s2, some .aborted) else doFail o c s2
+  else (s1, none)
+
+def runLevels (c : ExitDiscCfg) (buffered : Bool) : List (Lvl × Bool × Bool) → σ → σ × Option Stop
+  | [], s => (s, none)
+  | (l, sym, full) :: rest, s =>
+    match reportL o c buffered l sym full s with
+    | (s1, some st) => (s1, some st)
+    | (s1, none) => runLevels c buffered rest s1
+
+/-- `main`: the phases (parse, resolve, back end) with their reports and whether `ERRORoccurred` is tested after them -/
+def runPhases (c : ExitDiscCfg) (buffered : Bool) : List (List (Lvl × Bool × Bool) × Bool) → σ → σ × Option Stop
+  | [], s => doSucceed o c s
+  | (evs, chk) :: rest, s =>
+    match runLevels o c buffered evs s with
+    | (s1, some st) => (s1, some st)
+    | (s1, none) => if chk && o.occurred s1 then doFail o c s1 else runPhases c buffered rest s1
+end
+
+def levelsOf (c : ExitDiscCfg) (enabled : Nat → Bool) (evs : List Ev) : List (Lvl × Bool × Bool) :=
+  evs.filterMap (fun e => (evLevel c enabled e).map (fun l => (l, e.sym, e.full)))
+
+/-- a whole run of one of the tools on an input file: the reports of the three phases under a set of enabled warnings -/
+def runMain (c : ExitDiscCfg) (buffered : Bool) (enabled : Nat → Bool) (parse resolve backend : List Ev) : RState × Option Stop :=
+  runPhases RState.ops c buffered
+    [(levelsOf c enabled parse, c.checks.getD 0 false), (levelsOf c enabled resolve, c.checks.getD 1 false),
+     (levelsOf c enabled backend, c.checks.getD 2 false)] RState.init
+
 end StepModel.Buffers
